@@ -189,6 +189,15 @@ class PositionCycles:
                 bad = ('opened_at', cyc['opened_at'], int(t.opened_at))
             elif int(t.closed_at) != cyc['closed_at']:
                 bad = ('closed_at', cyc['closed_at'], int(t.closed_at))
+            elif self.kind == 'futures' and not (cyc.get('after_flip') or cyc.get('closed_by_flip')) and not C.close(
+                    float(t.fee), self.fee * (sum(q * p for q, p in cyc['entry']) + sum(q * p for q, p in cyc['exit'])),
+                    1e-9, 1e-9 * max(1.0, eq * (entry or 0.0))):
+                bad = ('fee', self.fee * (sum(q * p for q, p in cyc['entry']) + sum(q * p for q, p in cyc['exit'])), float(t.fee))
+            elif self.kind == 'futures' and not (cyc.get('after_flip') or cyc.get('closed_by_flip')) and not C.close(
+                    float(t.pnl), (1 if cyc['type'] == 'long' else -1) * (sum(q * p for q, p in cyc['exit']) - sum(q * p for q, p in cyc['entry']))
+                    - self.fee * (sum(q * p for q, p in cyc['entry']) + sum(q * p for q, p in cyc['exit'])),
+                    1e-9, 1e-9 * max(1.0, eq * (entry or 0.0))):
+                bad = ('pnl', None, float(t.pnl))
             elif [str(o.id) for o in t.orders] != cyc['orders'] and not (
                     cyc.get('after_flip') and [str(o.id) for o in t.orders] == cyc['orders'][1:]):
                 bad = ('orders', cyc['orders'][:6], [str(o.id) for o in t.orders][:6])
